@@ -79,4 +79,18 @@ func (*DataProcessor).processAggregationResults
   before sendResultNonBlocking limit-respected: dp.stream.config.Limit > 0 ==> len(finalResults) <= dp.stream.config.Limit
   before sendResultNonBlocking limit-keeps-a-prefix: dp.stream.config.Having != "" ==> len(finalResults) <= len($having) && forall(i, 0, len(finalResults), finalResults[i] == $having[i])
   before sendResultNonBlocking nothing-dropped-below-limit: dp.stream.config.Having != "" && (dp.stream.config.Limit <= 0 || len($having) <= dp.stream.config.Limit) ==> len(finalResults) == len($having)
+
+// ---------------------------------------------------------------- C04: function-expression group keys, output naming
+extern (*Stream).stripJoinAlias
+  props C04
+  option pure
+
+func (*Stream).groupFieldOutputName
+  props C04
+  ensures alias-wins: dom(s.config.SelectAlias, gf) && s.config.SelectAlias[gf] != "" ==> result == s.config.SelectAlias[gf]
+
+func (*Stream).injectGroupKeyExprs
+  props C04 C20
+  modifies allmaps
+  atreturn every-function-key-is-attempted: $done1
 @*/
